@@ -222,12 +222,6 @@ theorem prog_local (isInput outs : P → Prop) (W : Work L Z R) (r : Routine) (a
     apply local_checked isInput outs W _ _ _ _ _ (hrd _ (by simp [Rd.path])) (hrd _ (by simp [Rd.path]))
     intro obs res; exact local_finish isInput outs res
 
-/-- the zone routine a fast score routine calls -/
-def zoneRoutine : Routine → Option Routine
-  | .lrmsdFast _ => some .lzone
-  | .irmsdFast _ => some .izone
-  | _ => none
-
 /-- a fast score routine given a zone file is the cache protocol followed by a local program -/
 theorem prog_withZone (isInput outs : P → Prop) (W : Work L Z R) (r zr : Routine) (a : Args P) (f : P)
     (ha : CallOk isInput outs a) (hz : a.zone = some f) (hr : zoneRoutine r = some zr) :
@@ -267,7 +261,8 @@ theorem exec_withZone (W : Work L Z R) (zr : Routine) (ref f tmp : P) (k : Z →
   cases hf : fs f with
   | some c =>
     simp only [Prog.exec, hf, Option.isSome, if_true]
-    rw [exec_readZone]; simp only [hf]
+    rw [exec_readZone, hf]
+    rfl
   | none =>
     simp only [Prog.exec, hf, Option.isSome, Bool.false_eq_true, if_false]
     rw [exec_loadPdb]
@@ -315,7 +310,7 @@ theorem rg_withZone (W : Work L Z R) (hrt : ∀ z, W.parse (W.render z) = .ok z)
         exact rg_local w l hs.out_not_input _ (hk _) _ (hafter _) hsolo none seen
   unfold withZone
   simp only [RG]
-  refine Or.inr ⟨rfl, ?_⟩
+  refine Or.inr ⟨by first | rfl | trivial, ?_⟩
   intro v hv _
   cases v with
   | some c =>
@@ -323,16 +318,16 @@ theorem rg_withZone (W : Work L Z R) (hrt : ∀ z, W.parse (W.render z) = .ok z)
     simp only [Option.isSome, Bool.or_true, if_true]
     unfold readZone
     simp only [RG]
-    refine Or.inr ⟨rfl, ?_⟩
+    refine Or.inr ⟨by first | rfl | trivial, ?_⟩
     intro v2 hv2 hsome
     cases v2 with
-    | none => exact absurd rfl (hsome rfl)
+    | none => exact absurd rfl (hsome (by first | rfl | trivial))
     | some c2 =>
       simp only [Option.isSome, Bool.or_true, if_true, RG]
-      refine Or.inr ⟨rfl, ?_⟩
+      refine Or.inr ⟨by first | rfl | trivial, ?_⟩
       intro v3 hv3 hsome3
       cases v3 with
-      | none => exact absurd rfl (hsome3 rfl)
+      | none => exact absurd rfl (hsome3 (by first | rfl | trivial))
       | some c3 =>
         simp only []
         apply hread true c3
@@ -356,13 +351,12 @@ theorem rg_withZone (W : Work L Z R) (hrt : ∀ z, W.parse (W.render z) = .ok z)
       simpa [RG] using hsolo
     | some rc =>
       simp only [hr] at hsolo
-      simp only [Option.isSome, if_true, RG]
+      simp only [hr, Option.isSome, if_true, RG]
       refine Or.inl ⟨href, Or.inl ⟨href, ?_⟩⟩
-      simp only [hr]
       unfold writeZone
       simp only [RG]
-      refine ⟨rfl, rfl, Or.inl ⟨rfl, [], rfl, ?_⟩⟩
-      refine ⟨rfl, rfl, by simp, by simp [hpub, hr], hc0, ?_⟩
+      refine ⟨by first | rfl | trivial, by first | rfl | trivial, Or.inl ⟨by first | rfl | trivial, [], rfl, ?_⟩⟩
+      refine ⟨by first | rfl | trivial, by first | rfl | trivial, by simp, by simp [hpub, hr], hc0, ?_⟩
       exact rg_local w l hs.out_not_input _ (hk _) _ (hafter _) hsolo none true
 
 end Proofs.Effects
